@@ -382,7 +382,8 @@ class TreeExec:
         x = self.ent(d)
         y = self.ent(d2)
         self._lib(lambda: setattr(x, "entity_type", y.entity_type))
-        self.model.nodes[d].tsrc = self.model.nodes[d2].tsrc if self.model.nodes[d2].tsrc is not None else d2
+        tgt = self.model.nodes[d2].tsrc if self.model.nodes[d2].tsrc is not None else d2
+        self.model.nodes[d].tsrc = None if tgt == d else tgt
 
     def op_rm_par_all(self, parent):
         """One call removing every child of a parent (mixed kinds in one list)."""
@@ -804,9 +805,12 @@ def enabled(model: Model, alpha: dict) -> list:
                 if own and d.parent != o.idx and DATA_KINDS[d.dkind] == "VERTEX":
                     ops.append(["pg_add_foreign", o.idx, own[0], d.idx, "P"])
     if alpha.get("retype"):
+        def type_id(n):
+            return n.idx if n.tsrc is None else n.tsrc
+
         for d in data:
             for d2 in data:
-                if d.idx != d2.idx and d.dkind == d2.dkind and d.dkind in ("fv", "fc") and d.tsrc is None and d2.tsrc is None:
+                if d.idx != d2.idx and d.dkind == d2.dkind and d.dkind in ("fv", "fc") and type_id(d) != type_id(d2):
                     ops.append(["retype", d.idx, d2.idx])
     if "rm_par_all" in kinds:
         for h in containers + [o.idx for o in objects]:
